@@ -11,7 +11,8 @@ import vlib
 PROP = "C09"
 BEH = os.path.join(vlib.WORK, "beh")
 AS_LIMIT = 4 << 30            # address space of the recorder (bytes)
-CPU_HANG_S = 5.0              # a call that burns this much CPU without returning hangs
+CPU_HANG_S = 5.0              # a call that burns this much CPU without returning hangs ...
+CPU_PER_TUPLE_S = 0.002       # ... plus this much per tuple of the coordinate set it was given
 WALL_HANG_S = 120.0           # ... or that long without using any CPU (blocked)
 SEG_EVENTS = 4000             # the recorder emits a reset (fresh contexts, no live handles) about every so many events
 FILE_EVENTS = 400000          # at most so many events per TLC run (cut at reset events)
@@ -135,6 +136,8 @@ def record(jobs, sets, tag, max_abnormal, cpu_hang=CPU_HANG_S):
             blocked = cpu is not None and now - wall0 > WALL_HANG_S and cpu - cpu0 < 1.0
             if burning or blocked:
                 last = _last_event(trace) if size else None
+                if last and last.get("ev") == "call" and not blocked and cpu - cpu0 <= cpu_hang + CPU_PER_TUPLE_S * last.get("n", 0):
+                    continue       # a large coordinate set: allowed more
                 if last and last.get("ev") == "call":
                     verdict = "timeout"
                     p.kill()
@@ -221,70 +224,121 @@ def replay_call(call, job, sets):
     return r
 
 
-def split_segments(trace, seg_dir):
-    """The trace in pieces for TLC, cut at reset events: about as many pieces as TLC runs in parallel,
-    but at most FILE_EVENTS events each."""
+_EV_RE = re.compile(r'"ev":"(\w+)"')
+_API_RE = re.compile(r'"api":"([^"]+)"')
+_GRP_RE = re.compile(r'"grp":"([^"]+)"')
+
+
+def scan_trace(trace, jobs):
+    """One streaming pass over the trace: counts, and all abnormal events by site (panic location / kind of death).
+    The first abnormal call of each site stays in the trace, to be judged by TLC; the others are taken out and
+    counted as its duplicates (their inputs are listed with the violation)."""
+    n_events = 0
+    apis, outcomes = collections.Counter(), collections.Counter()
+    first, dup_ids, dups, also = {}, set(), collections.Counter(), collections.defaultdict(collections.Counter)
+    last_call = None
+    with open(trace) as f:
+        for line in f:
+            m = _EV_RE.search(line)
+            if not m:
+                continue
+            n_events += 1
+            ev = m.group(1)
+            if ev == "call":
+                last_call = line
+                g = _GRP_RE.search(line).group(1)
+                apis[_API_RE.search(line).group(1) if g in ("ctx", "proj") else g] += 1
+            elif ev != "reset":
+                outcomes[ev] += 1
+                if ev in ABNORMAL:
+                    e = json.loads(line)
+                    c = json.loads(last_call) if last_call else None
+                    site = site_of(e)
+                    if site not in first:
+                        first[site] = e["id"]
+                    else:
+                        dup_ids.add(e["id"])
+                        dups[site] += 1
+                        if c is not None and c["id"] == e["id"]:
+                            also[site][signature(c, jobs[c["j"]])] += 1
+    return {"events": n_events, "apis": apis, "outcomes": outcomes, "dup_ids": dup_ids, "dups": dups,
+            "also": {k: sorted(v.items(), key=lambda kv: -kv[1])[:60] for k, v in also.items()}}
+
+
+def split_segments(trace, seg_dir, n_events, dup_ids):
+    """The trace in pieces for TLC, cut at reset events: about as many pieces as TLC runs in parallel, but at most
+    FILE_EVENTS events each. Streaming; returns [(path, events)]."""
     shutil.rmtree(seg_dir, ignore_errors=True)
     os.makedirs(seg_dir)
-    events = vlib.read_ndjson(trace)
-    size = min(FILE_EVENTS, max(20000, len(events) // TLC_PARALLEL + 1))
-    segs, cur = [], []
-    for e in events:
-        if e["ev"] == "reset" and len(cur) >= size:
-            segs.append(cur)
-            cur = []
-        cur.append(e)
-    if cur:
-        segs.append(cur)
+    size = min(FILE_EVENTS, max(20000, n_events // TLC_PARALLEL + 1))
+    segs, out, count = [], None, 0
+    with open(trace) as f:
+        for line in f:
+            if not line.strip():
+                continue
+            if out is None or (count >= size and '"ev":"reset"' in line):
+                if out is not None:
+                    out.close()
+                    segs[-1] = (segs[-1][0], count)
+                path = os.path.join(seg_dir, "seg%04d-0.ndjson" % len(segs))
+                out, count = open(path, "w"), 0
+                segs.append((path, 0))
+            if dup_ids and '"ev":"reset"' not in line and json.loads(line).get("id") in dup_ids:
+                continue
+            out.write(line)
+            count += 1
+    if out is not None:
+        out.close()
+        segs[-1] = (segs[-1][0], count)
     return segs
 
 
-def group_by_site(segs, jobs):
-    """All abnormal events of the trace by site (panic location / kind of death). The first of each site stays in
-    the trace, to be judged by TLC; the others are taken out and counted as its duplicates."""
-    calls, first, dup_ids, also, dups = {}, {}, set(), collections.defaultdict(collections.Counter), collections.Counter()
-    for s in segs:
-        for e in s:
-            if e["ev"] == "call":
-                calls[e["id"]] = e
-            elif e["ev"] in ABNORMAL:
-                site = site_of(e)
-                c = calls.get(e["id"])
-                if site not in first:
-                    first[site] = e["id"]
-                else:
-                    dup_ids.add(e["id"])
-                    dups[site] += 1
-                    if c is not None:
-                        also[site][signature(c, jobs[c["j"]])] += 1
-        calls = {}
-    segs2 = [[e for e in s if e.get("id") not in dup_ids] for s in segs] if dup_ids else segs
-    return segs2, dups, {k: sorted(v.items(), key=lambda kv: -kv[1])[:60] for k, v in also.items()}
-
-
-def validate_segment(idx, events, seg_dir):
+def validate_segment(idx, path, n):
     """TLC over one segment; after a rejection the offending call is taken out and the rest is validated again.
     Returns (rejections, accepted_events, states, generated)."""
     rejections, states, generated, accepted, round_ = [], 0, 0, 0, 0
-    while events:
-        path = os.path.join(seg_dir, "seg%04d-%d.ndjson" % (idx, round_))
-        vlib.write_ndjson(path, events)
-        info = vlib.tlc_trace("Trace_C09", path, tag="Trace_C09-%04d" % idx, timeout=1200)
+    while n:
+        info = vlib.tlc_trace("Trace_C09", path, tag="Trace_C09-%04d" % idx, timeout=1500)
         states += info["states"]
         generated += info["generated"]
         if info["accepted"]:
-            accepted = len(events)
+            accepted = n
             break
+        events = vlib.read_ndjson(path)
         k = info["matched"]            # index of the event no action matches
         bad = events[k]
-        call = next((e for e in reversed(events[:k]) if e["ev"] == "call" and e.get("id") == bad.get("id")), None)
+        call = next((e for e in reversed(events[max(0, k - 50):k]) if e["ev"] == "call" and e.get("id") == bad.get("id")), None)
         rejections.append({"event": bad, "call": call, "matched_before": k,
                            "site": site_of(bad) if bad["ev"] in ABNORMAL else "unmatched:" + bad["ev"]})
         if bad["ev"] not in ABNORMAL or call is None or round_ >= 25:
             break                      # ill-formed trace (not a totality question), or far too many sites: stop here
         events = [e for e in events if e.get("id") != bad["id"]]
         round_ += 1
+        path = path.replace("-%d.ndjson" % (round_ - 1), "-%d.ndjson" % round_)
+        vlib.write_ndjson(path, events)
+        n = len(events)
     return rejections, accepted, states, generated
+
+
+def validate(trace, jobs, seg_dir):
+    """Scan, split, and let TLC judge every piece (TLC_PARALLEL at a time)."""
+    sc = scan_trace(trace, jobs)
+    segs = split_segments(trace, seg_dir, sc["events"], sc["dup_ids"])
+    rejections, accepted_segments, accepted_events, states, generated = [], 0, 0, 0, 0
+    with concurrent.futures.ThreadPoolExecutor(TLC_PARALLEL) as ex:
+        futs = [ex.submit(validate_segment, i, pth, n) for i, (pth, n) in enumerate(segs)]
+        for fu in futs:
+            rej, acc, s, g = fu.result()
+            rejections += rej
+            accepted_events += acc
+            accepted_segments += 0 if rej else 1
+            states += s
+            generated += g
+    for rj in rejections:
+        rj["duplicates"] = sc["dups"].get(rj["site"], 0)
+        rj["also"] = sc["also"].get(rj["site"], [])
+    return {"scan": sc, "segments": segs, "rejections": rejections, "accepted_segments": accepted_segments,
+            "accepted_events": accepted_events, "states": states, "generated": generated}
 
 
 def binding_selftest(events):
@@ -350,14 +404,14 @@ def run(tier, seed):
         raise vlib.ToolError("generator does not cover the catalogue: %d missing, %d unexpected, e.g. %s"
                              % (len(expected - got), len(got - expected), sorted(expected - got)[:3]))
     wraps_seen = collections.Counter(d["wrap"] for d in defs)
-    r_pairs = gen("pairs", ellps_path, simulate=150 if q else 2500, seed=seed)
+    r_pairs = gen("pairs", ellps_path, simulate=150 if q else 6000, seed=seed)
     res.add_tlc(r_pairs)
     pairs = dedup(r_pairs["records"].get("DEF", []), lambda d: d["text"] + json.dumps(d["res"]))
     r_mut = gen("mut_q" if q else "mut_t", ellps_path)
     vlib.require_coverage(r_mut, ["Mutate"])
     res.add_tlc(r_mut)
     muts = r_mut["records"]["MUT"]
-    r_ms = gen("mutsim", ellps_path, simulate=250 if q else 5000, seed=seed)
+    r_ms = gen("mutsim", ellps_path, simulate=250 if q else 15000, seed=seed)
     res.add_tlc(r_ms)
     muts += r_ms["records"].get("MUT", [])
     muts = dedup(muts, lambda m: m["text"])
@@ -365,9 +419,11 @@ def run(tier, seed):
     vlib.require_coverage(r_coord, ["SetElem"])
     res.add_tlc(r_coord)
     coords = r_coord["records"]["COORD"]
-    r_cs = gen("coordsim", ellps_path, simulate=500 if q else 6000, seed=seed)
+    r_cs = gen("coordsim", ellps_path, simulate=500 if q else 15000, seed=seed)
     res.add_tlc(r_cs)
     sim_coords = dedup(r_cs["records"].get("COORD", []), lambda c: tuple(c["t"]))
+    if min(len(pairs), len(sim_coords), len(r_ms["records"].get("MUT", []))) == 0:
+        raise vlib.ToolError("vacuous: a -simulate generator run emitted nothing")
     r_fn = gen("fn_q" if q else "fn_t", ellps_path)
     vlib.require_coverage(r_fn, ["PickRecv", "SetArg"])
     res.add_tlc(r_fn)
@@ -398,8 +454,8 @@ def run(tier, seed):
         jobs.append(def_job(text, macro, ["full", "sim"], 8, {"op": "special", "keys": ["-"], "cls": [text[:30]], "wrap": "alone"}))
     n_base = len(jobs)
     for i, d in enumerate(defs + pairs):
-        # thorough: every 16th definition also sees the whole coordinate product
-        s = ["small"] if (q or i % 16) else ["small", "full"]
+        # thorough: every 8th definition also sees the whole coordinate product
+        s = ["small"] if (q or i % 8) else ["small", "full"]
         jobs.append(def_job(d["text"], d["res"], s, 2, {"op": d["op"], "keys": d["keys"], "cls": d["cls"], "wrap": d["wrap"]}))
     for f in fns:
         jobs.append({"kind": "fn", "fn": f["fn"], "grp": f["grp"], "recv": f["recv"], "args": f["args"]})
@@ -417,26 +473,16 @@ def run(tier, seed):
     # ---- validate ------------------------------------------------------------------------------
     t0 = time.time()
     seg_dir = os.path.join(BEH, "C09-%s-segments" % tier)
-    segs_all = split_segments(trace, seg_dir)
-    st["calls"] = sum(1 for s in segs_all for e in s if e["ev"] == "call")
-    st["panics"] = sum(1 for s in segs_all for e in s if e["ev"] == "panic")
+    val = validate(trace, jobs, seg_dir)
+    sc, segs, rejections = val["scan"], val["segments"], val["rejections"]
+    st["calls"] = sum(sc["apis"].values())
+    st["panics"] = sc["outcomes"].get("panic", 0)
     res.evaluations = st["calls"]
-    segs, dups, also = group_by_site(segs_all, jobs)
-    rejections = []
-    with concurrent.futures.ThreadPoolExecutor(TLC_PARALLEL) as ex:
-        futs = [ex.submit(validate_segment, i, s, seg_dir) for i, s in enumerate(segs)]
-        for i, fu in enumerate(futs):
-            rej, accepted, states, generated = fu.result()
-            res.states += states
-            res.transitions += generated
-            res.trace_events += accepted
-            if not rej:
-                res.trace_segments_accepted += 1
-            rejections += rej
-    vlib.log("[C09] validated %d events in %d segments in %.1fs, %d rejected" % (res.trace_events, len(segs), time.time() - t0, len(rejections)))
-    for rj in rejections:
-        rj["duplicates"] = dups.get(rj["site"], 0)
-        rj["also"] = also.get(rj["site"], [])
+    res.states += val["states"]
+    res.transitions += val["generated"]
+    res.trace_events += val["accepted_events"]
+    res.trace_segments_accepted += val["accepted_segments"]
+    vlib.log("[C09] validated %d events in %d segments in %.1fs, %d rejected" % (val["accepted_events"], len(segs), time.time() - t0, len(rejections)))
     by_sig = {}
     for rj in rejections:
         call, bad = rj["call"], rj["event"]
@@ -461,23 +507,20 @@ def run(tier, seed):
         res.add_violation(v)
 
     # ---- the binding binds ---------------------------------------------------------------------
-    clean = [e for e in segs_all[0]]
-    abn = {e["id"] for e in clean if e["ev"] in ABNORMAL}
-    clean = [e for e in clean if e.get("id") not in abn]
-    if not binding_selftest(clean):
+    head = []
+    with open(segs[0][0]) as f:
+        for line in f:
+            head.append(json.loads(line))
+            if len(head) >= 4000:
+                break
+    abn = {e["id"] for e in head if e["ev"] in ABNORMAL}
+    if not binding_selftest([e for e in head if e.get("id") not in abn]):
         raise vlib.ToolError("trace validation is vacuous: a trace with an injected panic / timeout was accepted, or a clean one rejected")
 
     # ---- evidence ------------------------------------------------------------------------------
     triples = len(expected)
     res.distinct_nontrivial = triples
-    apis = collections.Counter()
-    outcomes = collections.Counter()
-    for s in segs_all:
-        for e in s:
-            if e["ev"] == "call":
-                apis[e["api"] if e["grp"] in ("ctx", "proj") else e["grp"]] += 1
-            elif e["ev"] != "reset":
-                outcomes[e["ev"]] += 1
+    apis, outcomes = sc["apis"], sc["outcomes"]
     picks = [n_base + len(defs) // 3, n_base + len(defs) + len(pairs) // 2,
              n_base + len(defs) + len(pairs) + len(fns) // 2, len(jobs) - 1 - len(muts) // 2, 0]
     res.samples = [jobs[i] for i in picks if 0 <= i < len(jobs)]
@@ -490,7 +533,7 @@ def run(tier, seed):
                                "op_key_class_triples": triples, "catalogue_only_names": catalogue_only,
                                "ellipsoid_names": len(ellipsoids)},
                  "rejections_by_site": dict(collections.Counter(rj["site"] for rj in rejections)),
-                 "abnormal_calls_grouped_as_duplicates": dict(dups)}
+                 "abnormal_calls_grouped_as_duplicates": dict(sc["dups"])}
     res.rule = ("TLC enumerates, from the catalogue (36 operators; gamut keys with kind and default; implicit keys inv / omit_fwd / "
                 "omit_inv / an unknown key), every (operator, key, pool class) triple: the definition with that key set to each value "
                 "of the adversarial pool of its kind (every built-in ellipsoid name for ellps keys), alone and (quick: rotating subset; "
@@ -541,3 +584,33 @@ def replay(path):
         return 1
     print("replay passes on the current tree")
     return 0
+
+
+def selftest(seed):
+    """The supervision binds: faults injected into recorded calls (panic, abort, stack overflow, allocation beyond the
+    address space limit, busy loop) must each become the matching event, the recorder must carry on after each, and TLC
+    must reject the trace at exactly these events and accept it without them."""
+    vlib.build_harness("gvh_robust")
+    good = def_job("cart ellps=intl | helmert x=1 | cart inv", [], ["small"], 2, {"op": "selftest", "keys": ["-"], "cls": ["good"], "wrap": "alone"})
+    faults = ["panic", "abort", "overflow", "alloc", "hang"]
+    jobs = [good]
+    for f in faults:
+        jobs += [{"kind": "selftest", "fn": f}, good]
+    sets = {"small": [["0.2", "0.9", "100", "2020"], ["NaN", "inf", "0", "-0"]]}
+    trace, st = record(jobs, sets, "C09-selftest", max_abnormal=10, cpu_hang=1.5)
+    ev = vlib.read_ndjson(trace)
+    kinds = [e["ev"] for e in ev if e["ev"] in ABNORMAL]
+    ops = sum(1 for e in ev if e["ev"] == "ret_ok" and "h" in e)
+    print("abnormal events recorded:", kinds, "| successful instantiations:", ops, "|", st)
+    ok = kinds == ["panic", "crash", "crash", "crash", "timeout"] or kinds == ["panic", "crash", "crash", "panic", "timeout"]
+    ok &= ops == 2 * (len(faults) + 1)          # every good job ran on both contexts, also after each fault
+    seg_dir = os.path.join(BEH, "C09-selftest-segments")
+    shutil.rmtree(seg_dir, ignore_errors=True)
+    os.makedirs(seg_dir)
+    shutil.copy(trace, os.path.join(seg_dir, "seg0000-0.ndjson"))
+    rej, accepted, _, _ = validate_segment(0, os.path.join(seg_dir, "seg0000-0.ndjson"), len(ev))
+    print("TLC rejected:", [(r["event"]["ev"], r["call"]["api"]) for r in rej], "| then accepted", accepted, "events")
+    ok &= [r["event"]["ev"] for r in rej] == kinds and accepted == len(ev) - 2 * len(kinds)
+    ok &= binding_selftest([e for e in ev if e.get("id") not in {x["id"] for x in ev if x["ev"] in ABNORMAL}] * 4)
+    print("selftest", "passed" if ok else "FAILED")
+    return 0 if ok else 2
